@@ -3,13 +3,13 @@ from io import BytesIO
 from buidl.bech32 import decode_bech32, encode_bech32_checksum
 from buidl.ecc import S256Point
 from buidl.helper import (
-    decode_base58,
     encode_base58_checksum,
     encode_varstr,
     hash160,
     little_endian_to_int,
     int_to_byte,
     int_to_little_endian,
+    raw_decode_base58,
     read_varstr,
     sha256,
 )
@@ -619,13 +619,17 @@ class WitnessScript(Script):
 
 def address_to_script_pubkey(s):
     if s[:1] in ("1", "m", "n"):
-        # p2pkh
-        h160 = decode_base58(s)
-        return P2PKHScriptPubKey(h160)
+        # p2pkh: version byte 0x00 (mainnet) or 0x6f (other networks) + hash160
+        raw = raw_decode_base58(s)
+        if len(raw) != 21 or raw[0] not in (0x00, 0x6F):
+            raise RuntimeError(f"unknown type of address: {s}")
+        return P2PKHScriptPubKey(raw[1:])
     elif s[:1] in ("2", "3"):
-        # p2sh
-        h160 = decode_base58(s)
-        return P2SHScriptPubKey(h160)
+        # p2sh: version byte 0x05 (mainnet) or 0xc4 (other networks) + hash160
+        raw = raw_decode_base58(s)
+        if len(raw) != 21 or raw[0] not in (0x05, 0xC4):
+            raise RuntimeError(f"unknown type of address: {s}")
+        return P2SHScriptPubKey(raw[1:])
     elif s[:4] in ("bc1q", "tb1q") or s[:6] == "bcrt1q":
         # a version 0 witness program is 20 bytes (p2wpkh) or 32 bytes (p2wsh)
         witness_program = decode_bech32(s)[2]
